@@ -304,6 +304,20 @@ void h_opt_setnstr(void)
 	CANARY("opt_setnstr");
 }
 
+/* ownership on replacement (C07), constant shape so that --memory-leak-check can speak: a scalar string option that holds
+ * an explicitly set string is given a new one (or NULL); afterwards the harness releases the option as it now stands, and
+ * nothing may be left over - the replaced string was released by the call, exactly once */
+void h_setnstr_release(void)
+{
+	cfg_opt_t o; int rc; char *nv = nondet_bool() ? cfgv_string(2) : NULL;
+	k_flags = 0; k_leftover = 0;
+	mk_opt(&o, CFGT_STR, 1, 0);
+	rc = cfg_opt_setnstr(&o, nv, 0);
+	CHECK("C09,C07", rc == CFG_SUCCESS && o.nvalues == 1, "replacing the string of a set scalar succeeds (no allocation failure in this unit)");
+	drop_opt(&o);
+	if (nv) free(nv);
+	CANARY("setnstr_release");
+}
 /* contract::cfg_opt_setcomment(opt, comment): fresh copy, old one released once, COMMENTS|MODIFIED set;
  * NULL argument or allocation failure -> CFG_FAIL and nothing changes */
 void h_opt_setcomment(void)
